@@ -3,6 +3,10 @@ import z3
 from .values import *  # noqa
 
 
+# old name -> current name of locals of the function under verification (filled by the engine from the baseline)
+ALIASES = {}
+
+
 class State:
     __slots__ = ('pc', 'frames', 'cur', 'heap', 'alloc', 'exc', 'ghost', 'log', 'nframes', 'depth', 'facts_seen', 'fact_ids')
 
@@ -57,13 +61,17 @@ class State:
         self.frames[fid] = {'$parent': parent, '$info': info}
         return fid
 
-    def lookup(self, name, fid=None):
+    def lookup(self, name, fid=None, _aliased=False):
+        start = fid
         fid = self.cur if fid is None else fid
         while fid is not None:
             fr = self.frames[fid]
             if name in fr:
                 return fr[name], fid
             fid = fr['$parent']
+        if not _aliased and name in ALIASES:
+            # a local variable the contracts know under its name on the pinned tree, renamed since (see driver: baseline locals)
+            return self.lookup(ALIASES[name], start, True)
         return None, None
 
     def setvar(self, name, val):
